@@ -209,6 +209,45 @@ CLAIMED.update({
         "design": "DESIGN.md section 3 C14",
     },
 })
+
+CLAIMED["C06"]["text"] += (" The edge re-keying loops of write_snapshot and load_latest_snapshot are verified as regions over insertion-ordered "
+    "maps: the i-th written edge stays the i-th edge under its 'a→b' key (the order half of the byte-for-byte fixpoint), and _make_tmp's "
+    "temp names are proved never to end in '.json' (so discovery cannot pick them).")
+CLAIMED["C06"]["note"] = CLAIMED["C06"]["note"].replace("write_snapshot / load_latest_snapshot end to end and the byte-for-byte fixpoint are not under contract",
+    "write_snapshot / load_latest_snapshot end to end are not under contract (the byte-for-byte fixpoint is decided only as: sanitiser idempotent + "
+    "edge order preserved by both re-keying loops + json.dumps deterministic)")
+CLAIMED["C07"]["category"] = "exploration"
+CLAIMED["C07"]["text"] += (" Plus a verified frame clause (Engine F): read_snapshot, write_snapshot_auto, load_latest_snapshot, compute_delta, "
+    "apply_delta and every same-module function they call keep no state between calls (no module-level mutable container, global rebinding or "
+    "memoising decorator), so what the reader returns depends on its arguments and the files only.")
+CLAIMED.update({
+    "C11": {
+        "text": "Contract-based deductive proof of the retrieval pipeline's functions: _filter_owner (owner scope, completeness, order), "
+                "_filter_recent (window on well-formed timestamps), _filter_quarters, _rank_by_cosine (<= k, threshold, ordered by (-score, id), "
+                "dropped rank after kept), _search_with_episodes for the exact / archive / unknown tiers and the cluster-tier region (top-m "
+                "clusters by (-score, cluster id), pool = episodes of chosen clusters), MMR (_initial_order, mmr_select, mmr_reorder_full: "
+                "permutations of range(n), len == min(k, n)), the interpolate-and-sort region of fuse (same multiset of ids, ordered), and "
+                "rerank_with_gel (permutation, top-1 fixed, tail beyond k_max untouched, disabled = identity). All inputs, unbounded lists.",
+        "note": "Floats are reals; cosine / _parse_iso / numpy vector ops are uninterpreted or assumed contracts; preconditions k >= 0 and "
+                "clusters_top_m >= 0 (validator ranges; negative values slice from the end: see DESIGN findings); the cluster tier is a region "
+                "contract, not end to end; fuse identity paths, apply_quality composition, owner_for_query, residual graph nudges "
+                "(t2_semantic) and the LanceDB backend are not under contract.",
+        "design": "DESIGN.md section 3 C11",
+    },
+    "C12": {
+        "text": "Contract-based deductive proof of T1: _compute_decay (both formulas and ranges), _match_keywords (seeds = nodes with a matching "
+                "non-empty label, both directions), t1_propagate's slice clamps (effective budgets = min(config, slice cap)), and region "
+                "contracts of _t1_one_graph: label/tag collection (soundness direction), seeding, the propagation loop with perf caps off and "
+                "on (pops <= budget and equal to the ghost count of heap pops, propagations <= relax_cap, touched nodes reachable within the "
+                "radius and layer caps, every seed touched), the output region (ids strictly increasing, exactly the keys with |acc| >= EPS); "
+                "frame lemmas over the AST of t1.py and of the store accessors it calls (never modifies the graph store; one violation "
+                "repaired in /repo, fix f6f545d).",
+        "note": "heapq is a trusted multiset model; floats are reals; converse direction of label collection (every matching node is seeded) is "
+                "not discharged; relax_cap clause stated for relax_cap >= 1 (relax_cap = 0 still relaxes once: see DESIGN findings); decay "
+                "preconditions distance >= 0 and alpha >= 0; the parallel fold's counters are C09's; cache interplay is C05.",
+        "design": "DESIGN.md section 3 C12",
+    },
+})
 PENDING_REASON = "check not built yet (construction in progress, see DESIGN.md section 3)"
 NA = {}
 
@@ -239,7 +278,7 @@ for pid in ALL:
             "evidence_file": "evidence/%s.json" % pid,
             "replay_cmd_template": "./check --replay {path}",
             "engine": "pyvc",
-            "level_claimed": {"category": "proof", "text": c["text"], "design_ref": c["design"]},
+            "level_claimed": {"category": c.get("category", "proof"), "text": c["text"], "design_ref": c["design"]},
             "level_note": c["note"],
             "technique": "contract-based deductive verification (pre/postconditions, loop invariants, lemmas; VCs from the real AST, z3/cvc5)",
         })
